@@ -75,11 +75,11 @@
  *  B  buffer discipline: every buffer obtained is released exactly once on every path (ghost count), none is used after.
  *  E  PASS_REVOKE / PASS_REPLAY never change info->end_transaction; PASS_SCAN sets start_transaction = s_sequence.
  */
-#define JR_CUSTOM_IN
-#define VERIF_BH_SLACK 32
 #ifndef VERIF_MAX_BS_LOG
 #define VERIF_MAX_BS_LOG 0
 #endif
+#define JR_CUSTOM_IN
+#define VERIF_BH_SLACK 32
 #include "jr_spec.h"
 #include <errno.h>
 #include <limits.h>
@@ -96,7 +96,7 @@ struct in_op {
 	unsigned int start_transaction, end_transaction;
 	int nr_replays, nr_revokes, nr_revoke_hits;
 	unsigned long long k;
-	int has_fc_cb;
+	unsigned int csum_seed;
 };
 struct in_op IN;
 #include "verif_in.h"
@@ -107,28 +107,31 @@ int g_pass;				/* the pass do_one_pass was called with */
 unsigned int g_end0;			/* info->end_transaction on entry */
 int g_geom_ok;				/* sane geometry and no fast commit: the range statement R applies */
 int g_live;				/* buffers obtained and not yet released */
-struct buffer_head *g_jr_bh;		/* last successful jread: buffer, log offset, byte verif_mc_k of the block */
-unsigned int g_jr_off;
-unsigned char g_jr_byte;
-struct buffer_head *g_gb_bh;		/* last getblk: buffer, device, block number */
-kdev_t g_gb_dev;
-unsigned long long g_gb_blocknr;
+unsigned long g_bm_block;		/* last jbd2_journal_bmap: log offset asked, physical block answered */
+unsigned long long g_bm_phys;
+struct buffer_head *g_gbj_bh;		/* last getblk on the journal device: buffer, block number */
+unsigned long long g_gbj_blocknr;
+struct buffer_head *g_gbf_bh;		/* last getblk on the filesystem device: buffer, block number */
+unsigned long long g_gbf_blocknr;
+struct buffer_head *g_rd_bh;		/* last buffer read from the device, and byte verif_mc_k of what was read */
+unsigned char g_rd_byte;
 unsigned long long g_tr_blocknr;	/* last test_revoke: arguments, answer */
 unsigned int g_tr_seq;
 int g_tr_ret;
-const void *g_tv_buf, *g_tv_tag3;	/* last tag checksum verification: arguments, raw t_checksum bytes of the tag copy, answer */
-unsigned int g_tv_seq;
-unsigned char g_tv_c0, g_tv_c1;
-int g_tv_ret;
+const void *g_cs_buf;			/* last crc32c call over a whole block: buffer, seed */
+unsigned int g_cs_seed;
+unsigned int g_cs_out;			/* ... and its result */
+unsigned int g_cq_seed, g_cq_word, g_cq_out;	/* last crc32c call over 4 bytes (the sequence number): seed, the 4 bytes (raw), result */
 unsigned long long g_tag_off0;		/* offset of the tag of the current tag-loop iteration */
 int g_prev_last;			/* the tag of the previous iteration carried LAST_TAG */
 struct buffer_head *g_armed;		/* buffer the write monitor has just approved */
 struct buffer_head *g_dirtied;		/* buffer mark_buffer_dirty was called on */
 
-#define GHOSTS g_live, g_jr_bh, g_jr_off, g_jr_byte, g_gb_bh, g_gb_dev, g_gb_blocknr, g_tr_blocknr, g_tr_seq, g_tr_ret, \
-	g_tv_buf, g_tv_tag3, g_tv_seq, g_tv_c0, g_tv_c1, g_tv_ret, g_tag_off0, g_prev_last, g_armed, g_dirtied
+#define GHOSTS g_live, g_bm_block, g_bm_phys, g_gbj_bh, g_gbj_blocknr, g_gbf_bh, g_gbf_blocknr, g_rd_bh, g_rd_byte, \
+	g_tr_blocknr, g_tr_seq, g_tr_ret, g_cs_buf, g_cs_seed, g_cs_out, g_cq_seed, g_cq_word, g_cq_out, \
+	g_tag_off0, g_prev_last, g_armed, g_dirtied
 
-static journal_t J;			/* the journal of the harness (getblk has no journal argument: buffers are j_blocksize = fs block size big) */
+static journal_t J;			/* the journal of the harness */
 
 #define UB(p) ((const unsigned char *)(p))
 #define J_INC(j) SPEC_BE32(&(j)->j_superblock->s_feature_incompat)
@@ -158,14 +161,7 @@ static unsigned char spec_magic_byte(unsigned long long k)
 	return k == 0 ? 0xc0 : k == 1 ? 0x3b : k == 2 ? 0x39 : 0x98;
 }
 
-/* ---- contracts of the callees (replaced) ---- */
-static int jread(struct buffer_head **bhp, journal_t *journal, unsigned int offset)
-	ASSIGNS(*bhp, g_jr_bh, g_jr_off, g_jr_byte, g_live)
-	ENSURES(offset < journal->j_total_len || RET != 0)
-	ENSURES(RET == 0 || (*bhp == 0 && g_live == OLD(g_live)))
-	ENSURES(RET != 0 || (FRESH(*bhp, BH_SIZE(journal)) && g_jr_bh == *bhp && g_jr_off == offset &&
-			     g_jr_byte == UB((*bhp)->b_data)[verif_mc_k] && g_live == OLD(g_live) + 1));
-
+/* ---- contracts of same-file callees that are replaced (only those with loops / outside the statement) ---- */
 static int count_tags(journal_t *journal, struct buffer_head *bh)
 	ASSIGNS()
 	ENSURES(RET >= 1);
@@ -174,35 +170,6 @@ static int calc_chksums(journal_t *journal, struct buffer_head *bh, unsigned lon
 	REQUIRES(g_pass == PASS_SCAN)
 	ASSIGNS(*next_log_block, *crc32_sum)
 	ENSURES(RET == 0 || RET == 1);
-
-static int jbd2_descriptor_block_csum_verify(journal_t *j, void *buf)
-	ASSIGNS()
-	ENSURES(RET == 0 || RET == 1)
-	ENSURES(J_CSUM23(j) || RET == 1);
-
-static int jbd2_commit_block_csum_verify(journal_t *j, void *buf)
-	REQUIRES(g_pass == PASS_SCAN)
-	ASSIGNS()
-	ENSURES(RET == 0 || RET == 1)
-	ENSURES(J_CSUM23(j) || RET == 1);
-
-static int jbd2_block_tag_csum_verify(journal_t *j, journal_block_tag_t *tag, journal_block_tag3_t *tag3, void *buf, __u32 sequence)
-	ASSIGNS(g_tv_buf, g_tv_tag3, g_tv_seq, g_tv_c0, g_tv_c1, g_tv_ret)
-	ENSURES(RET == 0 || RET == 1)
-	ENSURES(J_CSUM23(j) || RET == 1)
-	ENSURES(g_tv_buf == buf && g_tv_tag3 == tag3 && g_tv_seq == sequence && g_tv_c0 == UB(tag)[4] && g_tv_c1 == UB(tag)[5] && g_tv_ret == RET);
-
-struct buffer_head *getblk(kdev_t kdev, unsigned long long blocknr, int blocksize)
-	REQUIRES(g_pass == PASS_REPLAY)
-	ASSIGNS(g_gb_bh, g_gb_dev, g_gb_blocknr, g_live)
-	ENSURES(RET != 0 || g_live == OLD(g_live))
-	ENSURES(RET == 0 || (FRESH(RET, BH_SIZE(&J)) && RET->b_dirty == 0 && RET->b_blocknr == blocknr &&
-			     g_gb_bh == RET && g_gb_dev == kdev && g_gb_blocknr == blocknr && g_live == OLD(g_live) + 1));
-
-int jbd2_journal_test_revoke(journal_t *journal, unsigned long long blocknr, tid_t sequence)
-	REQUIRES(g_pass == PASS_REPLAY)
-	ASSIGNS(g_tr_blocknr, g_tr_seq, g_tr_ret)
-	ENSURES((RET == 0 || RET == 1) && g_tr_blocknr == blocknr && g_tr_seq == sequence && g_tr_ret == RET);
 
 /* ---- loop contracts and monitors, expanded inside do_one_pass (named anchors in recovery.c) ---- */
 #define OP_OFF ((long)(__CPROVER_POINTER_OFFSET(tagp) - __CPROVER_POINTER_OFFSET(bh->b_data)))
@@ -231,6 +198,8 @@ int jbd2_journal_test_revoke(journal_t *journal, unsigned long long blocknr, tid
 
 #define OP_T ((unsigned long long)spec_tag_bytes(journal->j_format_version, J_INC(journal)))
 #define OP_RAWFLAGS SPEC_TAG_FLAGS(bh->b_data, g_tag_off0)
+#define OP_RAWTAG (UB(bh->b_data) + g_tag_off0)
+#define SPEC_BSWAP32(v) ((((v) & 0xFFu) << 24) | (((v) & 0xFF00u) << 8) | (((v) >> 8) & 0xFF00u) | (((v) >> 24) & 0xFFu))
 
 #define VERIF_MON_DO_ONE_PASS_TAG_BEGIN { \
 	g_tag_off0 = (unsigned long long)OP_OFF; \
@@ -239,23 +208,28 @@ int jbd2_journal_test_revoke(journal_t *journal, unsigned long long blocknr, tid
 	CHECK(g_tag_off0 + 12 <= J_BS(journal), "T: the 12-byte tag copy ends inside the block"); \
 	}
 
+/* W5: journal.rst: tag checksum = crc32c(crc32c(journal seed, be32 sequence), the logged block); v3 stores all 32 bits
+ * big-endian at tag+12, v2 the low 16 bits big-endian at tag+4 */
+#define OP_TAGCSUM_OK \
+	(g_cq_seed == journal->j_csum_seed && g_cq_word == SPEC_BSWAP32(next_commit_ID) && \
+	 g_cs_seed == g_cq_out && g_cs_buf == (const void *)obh->b_data && \
+	 (SPEC_HAS(journal->j_format_version, J_INC(journal), SPEC_INCOMPAT_CSUM_V3) \
+		? SPEC_BE32(OP_RAWTAG + 12) == g_cs_out : SPEC_BE16(OP_RAWTAG + 4) == (g_cs_out & 0xFFFFu)))
+
 #define VERIF_MON_DO_ONE_PASS_WRITE { \
 	CHECK(pass == PASS_REPLAY && g_pass == PASS_REPLAY, "W1: a filesystem buffer is written only in PASS_REPLAY"); \
 	CHECK(SPEC_BE32(bh->b_data) == SPEC_MAGIC && SPEC_BE32(bh->b_data + 4) == SPEC_BT_DESCRIPTOR, "W2: the tag comes from a descriptor block"); \
 	CHECK(SPEC_BE32(bh->b_data + 8) == next_commit_ID, "W2: of the transaction being replayed (h_sequence == next_commit_ID)"); \
 	CHECK(spec_tid_gt(info->end_transaction, next_commit_ID), "W2: which lies before end_transaction"); \
-	CHECK(g_gb_bh == nbh && g_gb_dev == journal->j_fs_dev, "W3: the buffer belongs to the filesystem device"); \
-	CHECK(g_gb_blocknr == spec_tag_block(journal->j_format_version, J_INC(journal), UB(bh->b_data) + g_tag_off0) && nbh->b_blocknr == g_gb_blocknr, \
+	CHECK(g_gbf_bh == nbh && nbh != obh && nbh != bh, "W3: the buffer was obtained from the filesystem device"); \
+	CHECK(g_gbf_blocknr == spec_tag_block(journal->j_format_version, J_INC(journal), OP_RAWTAG) && nbh->b_blocknr == g_gbf_blocknr, \
 	      "W3: target block number == big-endian block number of the raw tag (high word iff 64BIT)"); \
-	CHECK(g_tr_blocknr == g_gb_blocknr && g_tr_seq == next_commit_ID && g_tr_ret == 0, "W4: test_revoke(block, next_commit_ID) said not revoked"); \
-	CHECK(g_tv_ret == 1 && g_tv_buf == (const void *)obh->b_data && g_tv_seq == next_commit_ID && \
-	      g_tv_tag3 == (const void *)(bh->b_data + g_tag_off0) && \
-	      g_tv_c0 == UB(bh->b_data)[g_tag_off0 + 4] && g_tv_c1 == UB(bh->b_data)[g_tag_off0 + 5], \
-	      "W5: the tag checksum of (this tag, this log block, next_commit_ID) verified"); \
-	CHECK(g_jr_bh == obh && g_jr_off == io_block, "W6: the log block was read from log offset io_block"); \
+	CHECK(g_tr_blocknr == g_gbf_blocknr && g_tr_seq == next_commit_ID && g_tr_ret == 0, "W4: test_revoke(block, next_commit_ID) said not revoked"); \
+	CHECK(!J_CSUM23(journal) || OP_TAGCSUM_OK, "W5: the tag checksum over (next_commit_ID, this log block) equals the one stored in the raw tag"); \
+	CHECK(g_gbj_bh == obh && g_rd_bh == obh && g_gbj_blocknr == g_bm_phys && g_bm_block == io_block, "W6: the log block was read from log offset io_block"); \
 	CHECK(UB(nbh->b_data)[verif_mc_k] == (((OP_RAWFLAGS & SPEC_FLAG_ESCAPE) && verif_mc_k < 4) ? spec_magic_byte(verif_mc_k) : UB(obh->b_data)[verif_mc_k]), \
 	      "W7: written bytes == logged bytes, first four bytes == JBD2 magic iff ESCAPE"); \
-	CHECK(UB(obh->b_data)[verif_mc_k] == g_jr_byte, "W7: the log block itself is not modified"); \
+	CHECK(UB(obh->b_data)[verif_mc_k] == g_rd_byte, "W7: the log block itself is not modified"); \
 	CHECK(nbh->b_dirty == 0, "W: not dirty before the monitor"); \
 	g_armed = nbh; \
 	}
@@ -271,23 +245,14 @@ int jbd2_journal_test_revoke(journal_t *journal, unsigned long long blocknr, tid
 
 #include "e2fsck/recovery.c"
 
-/* external buffer-flag functions of the front end's journal.c (one-liners) with the write monitor's second half */
-void mark_buffer_dirty(struct buffer_head *bh)
-{
-	CHECK(bh != 0 && bh == g_armed, "W: only the buffer just approved by the replay monitor is ever dirtied");
-	g_armed = 0;
-	g_dirtied = bh;
-	bh->b_dirty = 1;
-}
-void mark_buffer_uptodate(struct buffer_head *bh, int val)
-{
-	bh->b_uptodate = val;
-}
+/* ================= stubs for everything outside recovery.c ================= */
+
 /* printk == printf: messages only (CBMC's variadic printf model explodes under contract instrumentation) */
 int printf(const char *fmt, ...)
 {
 	return 0;
 }
+
 /* libc memcpy, over-approximated: bounds asserted; a 12-byte (tag) copy is exact; any other copy leaves arbitrary bytes in
  * the destination except at the ghost index verif_mc_k, where it is faithful (true of memcpy at every index) */
 struct verif_b12 { unsigned char b[12]; };
@@ -303,6 +268,83 @@ void *memcpy(void *dst, const void *src, size_t n)
 	}
 	return dst;
 }
+
+/* checksum primitives: arbitrary results, arguments logged (the CRC functions themselves: group csum) */
+__u32 ext2fs_crc32c_le(__u32 crc, unsigned char const *p, size_t len)
+{
+	__u32 out;	/* arbitrary */
+	if (len == 4) {
+		g_cq_seed = crc; g_cq_word = *(const unsigned int *)p; g_cq_out = out;
+	} else {
+		CHECK(len == J_BS(&J), "crc32c over a whole journal block");
+		g_cs_seed = crc; g_cs_buf = p; g_cs_out = out;
+	}
+	return out;
+}
+__u32 ext2fs_crc32_be(__u32 crc, unsigned char const *p, size_t len)
+{
+	__u32 out;	/* arbitrary */
+	return out;
+}
+
+/* front-end buffer layer (e2fsck/journal.c, debugfs/journal.c): the C04 units are about these; here they are devices
+ * that can fail at any call and deliver arbitrary block contents */
+int jbd2_journal_bmap(journal_t *journal, unsigned long block, unsigned long long *phys)
+{
+	int err;		/* arbitrary */
+	unsigned long long p;	/* arbitrary */
+	*phys = p;
+	g_bm_block = block; g_bm_phys = p;
+	return err;
+}
+struct buffer_head *getblk(kdev_t kdev, unsigned long long blocknr, int blocksize)
+{
+	int fail;		/* arbitrary */
+	struct buffer_head *bh;
+	CHECK(kdev == J.j_dev || kdev == J.j_fs_dev, "getblk on one of the journal's two devices");
+	CHECK(kdev != J.j_fs_dev || g_pass == PASS_REPLAY, "W1: filesystem buffers are only obtained in PASS_REPLAY");
+	CHECK((unsigned long)blocksize == J_BS(&J), "buffers are j_blocksize big");
+	if (fail)
+		return 0;
+	bh = malloc(BH_SIZE(&J));	/* arbitrary contents: what the device holds */
+	if (!bh)
+		return 0;
+	bh->b_dirty = 0;
+	bh->b_uptodate = 0;
+	bh->b_err = 0;
+	bh->b_size = blocksize;
+	bh->b_blocknr = blocknr;
+	g_live++;
+	if (kdev == J.j_dev) {
+		g_gbj_bh = bh; g_gbj_blocknr = blocknr;
+	} else {
+		g_gbf_bh = bh; g_gbf_blocknr = blocknr;
+	}
+	return bh;
+}
+int buffer_uptodate(struct buffer_head *bh)
+{
+	return bh->b_uptodate;
+}
+void wait_on_buffer(struct buffer_head *bh)
+{
+	int ok;			/* arbitrary: the read may fail */
+	if (!bh->b_uptodate && ok) {
+		bh->b_uptodate = 1;
+		g_rd_bh = bh; g_rd_byte = UB(bh->b_data)[verif_mc_k];
+	}
+}
+void mark_buffer_dirty(struct buffer_head *bh)
+{
+	CHECK(bh != 0 && bh == g_armed, "W: only the buffer just approved by the replay monitor is ever dirtied");
+	g_armed = 0;
+	g_dirtied = bh;
+	bh->b_dirty = 1;
+}
+void mark_buffer_uptodate(struct buffer_head *bh, int val)
+{
+	bh->b_uptodate = val;
+}
 void brelse(struct buffer_head *bh)
 {
 	CHECK(bh != 0 && g_live >= 1, "B: brelse of a live buffer");
@@ -310,6 +352,13 @@ void brelse(struct buffer_head *bh)
 	CHECK(!bh->b_dirty || bh == g_dirtied, "W: no buffer other than the monitored replay buffer reaches the device");
 	g_live--;
 	free(bh);
+}
+int jbd2_journal_test_revoke(journal_t *journal, unsigned long long blocknr, tid_t sequence)
+{
+	int r;			/* arbitrary */
+	CHECK(g_pass == PASS_REPLAY, "test_revoke is asked in PASS_REPLAY only");
+	g_tr_blocknr = blocknr; g_tr_seq = sequence; g_tr_ret = (r != 0);
+	return r != 0;
 }
 
 /* struct recovery_info is private to recovery.c: these contracts go on re-declarations after the real file */
@@ -341,7 +390,6 @@ static int do_one_pass(journal_t *journal, struct recovery_info *info, enum pass
 static journal_superblock_t JSB;
 static struct kdev_s DEV_J, DEV_FS;
 static struct recovery_info INFO;
-static int fc_cb(journal_t *journal, struct buffer_head *bh, enum passtype pass, int off, tid_t expected_tid) { return 0; }
 
 void h_one_pass(void)
 {
@@ -349,13 +397,17 @@ void h_one_pass(void)
 	ASSUME(IN.bs_log <= VERIF_MAX_BS_LOG);
 	ASSUME(IN.format_version == 1 || IN.format_version == 2);
 	ASSUME(IN.pass == PASS_SCAN || IN.pass == PASS_REVOKE || IN.pass == PASS_REPLAY);
+#ifdef VERIF_PASS
+	IN.pass = VERIF_PASS;		/* one unit per pass: a constant pass lets the verifier drop the other passes' branches */
+#endif
 	J.j_superblock = &JSB;
-	#ifdef VERIF_FIXED_BS
+#ifdef VERIF_FIXED_BS
 	J.j_blocksize = VERIF_FIXED_BS;
 #else
 	J.j_blocksize = 1024 << IN.bs_log;
 #endif
 	J.j_format_version = IN.format_version;
+	J.j_csum_seed = IN.csum_seed;
 	JSB.s_feature_incompat = ext2fs_cpu_to_be32(IN.incompat);
 	JSB.s_feature_compat = ext2fs_cpu_to_be32(IN.compat);
 	JSB.s_sequence = ext2fs_cpu_to_be32(IN.s_sequence);
@@ -364,7 +416,6 @@ void h_one_pass(void)
 	J.j_total_len = IN.j_total_len;
 	J.j_dev = &DEV_J; J.j_fs_dev = &DEV_FS;
 	DEV_J.k_dev = K_DEV_JOURNAL; DEV_FS.k_dev = K_DEV_FS;
-	J.j_fc_replay_callback = IN.has_fc_cb ? fc_cb : 0;
 	INFO.start_transaction = IN.start_transaction;
 	INFO.end_transaction = IN.end_transaction;
 	INFO.nr_replays = IN.nr_replays; INFO.nr_revokes = IN.nr_revokes; INFO.nr_revoke_hits = IN.nr_revoke_hits;
